@@ -9,4 +9,4 @@ import sys; sys.path.insert(0,'/verif')
 from vlib import kani as K
 K.overlay('$D/repo')
 PY
-cd $D/repo/rarena-allocator && CARGO_NET_OFFLINE=true cargo kani --no-default-features --features alloc --only-codegen 2>&1 | grep -E "^error" -A14 | head -${2:-80}
+cd $D/repo/rarena-allocator && CARGO_NET_OFFLINE=true cargo kani --no-default-features --features alloc --only-codegen --harness ${3:-c16_check_capacity_iff} 2>&1 | grep -E "^error" -A14 | head -${2:-80}
